@@ -208,6 +208,47 @@ func c02KeyTables(run *PropRun) {
 	if split := desc(evs); split != whole { fail("%%q in one read decodes to %%s, split after %%q to %%s", %q, whole, %q, split); return }`, k, r, k[len(r):], k, r))
 			}
 		}
+		// an ESC typed right before a report of another parser (focus, mouse) was a key of its own: it is delivered as
+		// Esc, it is not swallowed, and its pending-Alt does not end up on the key that follows the report
+		{
+			kesc := e.constInt(modPath, "KeyEsc")
+			krune := e.constInt(modPath, "KeyRune")
+			reps := []string{"\x1b[I"}
+			if db.str(te, "Mouse") != "" {
+				reps = append(reps, "\x1b[<0;1;1M", "\x1b[M !!")
+			}
+			for _, r := range reps {
+				// the report must not itself be (the start of) a key of the table
+				clash := false
+				for _, k := range seqs {
+					if strings.HasPrefix(k, r) || strings.HasPrefix(r, k) {
+						clash = true
+					}
+				}
+				if clash {
+					continue
+				}
+				in := "\x1b" + r + "a"
+				evs, why := decodeDriver(db, fs, tp, in)
+				ok := why == "" && len(evs) == 3 && evs[0].Key == kesc && evs[0].Mod == 0 && evs[1].Key == -1 && evs[2].Key == krune && evs[2].Mod == 0
+				g := run.AddObligation(fmt.Sprintf("keytable[%s]/esc-before-report[%q]", te.Name, r), "table", BoolT(ok),
+					fmt.Sprintf("ESC, the report %q, then 'a' decodes to Esc, the report's event and an unmodified 'a' (got %v %s)", r, evs, why))
+				g.ReplayGo = replayKeyTableImports(te.Name, []string{"bytes"}, fmt.Sprintf(`
+	s.cells.Resize(80, 24)
+	evs := s.collectEventsFromInput(bytes.NewBufferString(%q), false)
+	desc := ""
+	for _, ev := range evs {
+		if k, ok := ev.(*EventKey); ok { desc += fmt.Sprintf("[key %%d mod %%d rune %%d]", k.Key(), k.Modifiers(), k.Rune()) } else { desc += fmt.Sprintf("[%%T]", ev) }
+	}
+	if len(evs) != 3 { fail("%%q decoded to %%s: want Esc, the report, plain 'a'", %q, desc); return }
+	k0, ok0 := evs[0].(*EventKey)
+	_, isKey1 := evs[1].(*EventKey)
+	k2, ok2 := evs[2].(*EventKey)
+	if !ok0 || isKey1 || !ok2 || k0.Key() != KeyEsc || k0.Modifiers() != ModNone || k2.Key() != KeyRune || k2.Modifiers() != ModNone {
+		fail("%%q decoded to %%s: want Esc, the report, plain 'a'", %q, desc); return
+	}`, in, in, in))
+			}
+		}
 		n++
 	}
 	run.Extra["descriptions_whose_key_table_was_evaluated"] = n
